@@ -109,7 +109,7 @@ func ruleLookupTable(c *Ctx) {
 		}
 		var consults []consult
 		loopOf := map[*ast.CallExpr]*ast.RangeStmt{}
-		indexed := map[string]bool{}    // recv path (joined) indexed by the token
+		indexed := map[string]bool{}     // recv path (joined) indexed by the token
 		atoiIndexed := map[string]bool{} // indexed by strconv.Atoi(token) result
 		atoiVars := map[types.Object]bool{}
 		cmpConsts := map[string]bool{}
